@@ -12,14 +12,18 @@ func init() { props["witness"] = runWitness }
 
 func runWitness(cfg runCfg) error {
 	for _, fx := range fixtures {
-		if fx.Name != "tricky" {
+		want := os.Getenv("VH_FIXTURE")
+		if want == "" {
+			want = "tricky"
+		}
+		if fx.Name != want {
 			continue
 		}
 		env, err := newEnv(fx, gwOpts{maxRequests: 50})
 		if err != nil {
 			return err
 		}
-		fmt.Fprintln(os.Stdout, "(* generated once by `vh witness` from the tricky fixture; static thereafter *)")
+		fmt.Fprintln(os.Stdout, "(* generated once by `vh witness` from the "+want+" fixture; static thereafter *)")
 		fmt.Fprintln(os.Stdout, e2eImports)
 		fmt.Fprint(os.Stdout, env.preamble())
 	}
